@@ -164,12 +164,15 @@ Definition try_compiled (recheck : bool) (code : expr) (s : store) : option val 
 
 (* ---- the interpreter state ---- *)
 Definition path := list nat.
-Definition memo_key := (text * path)%type.
+Definition module := Z.                     (* 0 = no module active *)
+Definition ckey := (text * module)%type.    (* cache_key = (x, self._module) *)
+Definition memo_key := (ckey * path)%type.
 
 Record istate := mk_istate {
   vars : store ;
-  pcache : list text ;                              (* texts whose tree is cached (the tree is `parse t`) *)
-  ccache : list (text * option expr) ;              (* _compiled_cache: code or False *)
+  cur : module ;                                    (* self._module: the module the PARSER qualifies names with *)
+  pcache : list (ckey * expr) ;                     (* _parse_cache: key -> syntax tree *)
+  ccache : list (ckey * option expr) ;              (* _compiled_cache: code or False *)
   memo : list (memo_key * option expr)              (* node._compiled on inner nodes of cached trees *)
 }.
 
@@ -180,7 +183,8 @@ Fixpoint path_eqb (a b : path) : bool :=
   | _, _ => false
   end.
 
-Definition key_eqb (a b : memo_key) : bool := (fst a =? fst b) && path_eqb (snd a) (snd b).
+Definition ckey_eqb (a b : ckey) : bool := (fst a =? fst b) && (snd a =? snd b).
+Definition key_eqb (a b : memo_key) : bool := ckey_eqb (fst a) (fst b) && path_eqb (snd a) (snd b).
 
 Fixpoint mlookup (k : memo_key) (m : list (memo_key * option expr)) : option (option expr) :=
   match m with
@@ -188,20 +192,24 @@ Fixpoint mlookup (k : memo_key) (m : list (memo_key * option expr)) : option (op
   | (k', c) :: r => if key_eqb k k' then Some c else mlookup k r
   end.
 
-Fixpoint clookup (t : text) (m : list (text * option expr)) : option (option expr) :=
+Fixpoint clookup (t : ckey) (m : list (ckey * option expr)) : option (option expr) :=
   match m with
   | [] => None
-  | (t', c) :: r => if t =? t' then Some c else clookup t r
+  | (t', c) :: r => if ckey_eqb t t' then Some c else clookup t r
   end.
 
-Definition set_vars (st : istate) (s : store) := mk_istate s (pcache st) (ccache st) (memo st).
+Fixpoint plookup (t : ckey) (m : list (ckey * expr)) : option expr :=
+  match m with
+  | [] => None
+  | (t', e) :: r => if ckey_eqb t t' then Some e else plookup t r
+  end.
 
 Section Eval.
   Variable recheck : bool.          (* Generated.compiled_args_rechecked *)
   Variable clear_on_set : bool.     (* Generated.setitem_clears_compiled_cache *)
-  Variable t : text.
+  Variable t : ckey.                (* the cache key under which the tree being evaluated is stored *)
 
-  (* eval() on the node at `p` of the cached tree of text t.  `root` = the node is the
+  (* eval() on the node at `p` of the cached tree stored under t.  `root` = the node is the
      re-wrapped top node (call() builds a new KGCall, so its memo is lost). *)
   Fixpoint ev (root : bool) (p : path) (e : expr) (st : istate) : res * istate :=
     match e with
@@ -223,7 +231,7 @@ Section Eval.
           else match mlookup (t, p) (memo st) with
                | Some c => (c, st)
                | None => let c := compile e (vars st) in
-                         (c, mk_istate (vars st) (pcache st) (ccache st) (((t, p), c) :: memo st))
+                         (c, mk_istate (vars st) (cur st) (pcache st) (ccache st) (((t, p), c) :: memo st))
                end in
         match code with
         | Some c => match try_compiled recheck c (vars st') with
@@ -239,7 +247,7 @@ Section Eval.
         let (r, st1) := ev false (p ++ [1%nat]) e1 st in
         match r with
         | Err => (Err, st1)
-        | Ok v => (Ok v, mk_istate (sset n v (vars st1)) (pcache st1)
+        | Ok v => (Ok v, mk_istate (sset n v (vars st1)) (cur st1) (pcache st1)
                                    (if clear_on_set then [] else ccache st1) (memo st1))
         end
     end.
@@ -248,22 +256,41 @@ End Eval.
 Section Call.
   Variable recheck : bool.
   Variable clear_on_set : bool.
-  Variable parse : text -> expr.    (* the parser is a function of the text (C12) *)
+  Variable keymod : bool.           (* the parse cache key contains the active module (Generated.parse_cache_key_has_module) *)
+  (* the parser is a function of the text and of the active module (it qualifies names with it);
+     it also returns the module that is active after parsing: `.module(:m)` switches it AT PARSE TIME *)
+  Variable parse : text -> module -> expr * module.
 
-  (* KlongInterpreter.__call__ *)
-  Definition run_cached (st : istate) (t : text) : res * istate :=
-    let e := parse t in
-    let st0 := mk_istate (vars st) (if existsb (Z.eqb t) (pcache st) then pcache st else t :: pcache st)
-                         (ccache st) (memo st) in
+  Definition key_of (st : istate) (t : text) : ckey := (t, if keymod then cur st else 0).
+
+  (* a text whose parse switches the module is served from the cache: the parser does not run, so the
+     switch is lost (known finding C04-cached-module-switch) *)
+  Definition cached_switch (st : istate) (t : text) : bool :=
+    match plookup (key_of st t) (pcache st) with
+    | Some _ => negb (snd (parse t (cur st)) =? cur st)
+    | None => false
+    end.
+
+  (* __call__ after the parse cache: compiled cache, compiled attempt, interpreter *)
+  Definition run_tree (k : ckey) (e : expr) (st0 : istate) : res * istate :=
     let (code, st1) :=
-      match clookup t (ccache st0) with
+      match clookup k (ccache st0) with
       | Some c => (c, st0)
       | None => let c := compile e (vars st0) in
-                (c, mk_istate (vars st0) (pcache st0) ((t, c) :: ccache st0) (memo st0))
+                (c, mk_istate (vars st0) (cur st0) (pcache st0) ((k, c) :: ccache st0) (memo st0))
       end in
     match match code with Some c => try_compiled recheck c (vars st1) | None => None end with
     | Some v => (Ok v, st1)
-    | None => ev recheck clear_on_set t true [] e st1
+    | None => ev recheck clear_on_set k true [] e st1
+    end.
+
+  (* KlongInterpreter.__call__ *)
+  Definition run_cached (st : istate) (t : text) : res * istate :=
+    let k := key_of st t in
+    match plookup k (pcache st) with
+    | Some e => run_tree k e st
+    | None => let (e, m') := parse t (cur st) in
+              run_tree k e (mk_istate (vars st) m' ((k, e) :: pcache st) (ccache st) (memo st))
     end.
 
   Fixpoint state_after (st : istate) (h : list text) : istate :=
@@ -272,14 +299,33 @@ Section Call.
     | t :: r => state_after (snd (run_cached st t)) r
     end.
 
+  (* no step of the history is in the known-finding class *)
+  Fixpoint no_cached_switch (st : istate) (h : list text) : bool :=
+    match h with
+    | [] => true
+    | t :: r => negb (cached_switch st t) && no_cached_switch (snd (run_cached st t)) r
+    end.
+
   Fixpoint run_history (st : istate) (h : list text) : list (res * store) :=
     match h with
     | [] => []
     | t :: r => let (rr, st1) := run_cached st t in (rr, vars st1) :: run_history st1 r
     end.
+
+  (* the reference: parse under the active module, evaluate with the bare interpreter *)
+  Definition eval_ref (ms : module * store) (t : text) : res * (module * store) :=
+    let (e, m') := parse t (fst ms) in
+    let (r, s') := eval_pure e (snd ms) in
+    (r, (m', s')).
+
+  Fixpoint ref_after (ms : module * store) (h : list text) : module * store :=
+    match h with
+    | [] => ms
+    | t :: r => ref_after (snd (eval_ref ms t)) r
+    end.
 End Call.
 
-Definition fresh (s : store) : istate := mk_istate s [] [] [].
+Definition fresh (s : store) : istate := mk_istate s 0 [] [] [].
 
 (* ================================================================== *)
 (* Part B *)
